@@ -85,6 +85,10 @@ pub struct PortState {
     /// the sink implements write_vectored itself and gathers across the slices it is offered (like a file or socket);
     /// false = only write() is implemented and write_vectored is std's default (first non-empty slice)
     pub gather: bool,
+    /// a fixed-rate adapter: settings writes are accepted but the device keeps (and reports) this baud rate
+    pub pinned_baud: Option<BaudRate>,
+    /// a driver that re-initialises the device on every settings write, which puts the read timeout back to this default
+    pub settings_write_resets_timeout: Option<Duration>,
 }
 
 pub fn weird_settings() -> PortSettings {
@@ -144,6 +148,8 @@ impl PortState {
             write_block: None,
             read_block: None,
             gather: false,
+            pinned_baud: None,
+            settings_write_resets_timeout: None,
         }
     }
 }
@@ -318,7 +324,11 @@ impl SerialDevice for TestPort {
             return Err(serial_core::Error::new(k, "injected read_settings fault"));
         }
         let fail_baud = s.fail_set_baud.filter(|_| s.may_fail());
-        Ok(TestSettings { inner: s.settings, fail_baud, hide_baud: s.hide_baud, baud_failures: self.st.clone() })
+        let mut inner = s.settings;
+        if let Some(b) = s.pinned_baud {
+            inner.baud_rate = b;
+        }
+        Ok(TestSettings { inner, fail_baud, hide_baud: s.hide_baud, baud_failures: self.st.clone() })
     }
 
     fn write_settings(&mut self, settings: &TestSettings) -> serial_core::Result<()> {
@@ -329,6 +339,9 @@ impl SerialDevice for TestPort {
         }
         s.settings = settings.inner;
         s.settings_writes.push(settings.inner);
+        if let Some(d) = s.settings_write_resets_timeout {
+            s.timeout = Some(d);
+        }
         Ok(())
     }
 
